@@ -170,9 +170,25 @@ def r4_scan_skips_dots(ctx):
     return out
 
 
+def r5_named_subtree(ctx):
+    """'exactly the named subtree': the (parent, name) pair remove_all works on is the in-root lookup of the path the
+    caller gave -- every byte of it (C05.R8: no truncating or lossy conversion on the way to the kernel, else the
+    kernel resolves a different parent than path_split saw), split once by resolve_parent (C14.R6)."""
+    from .c05 import r8_path_fidelity
+    from .c14 import r6_resolve_parent
+    out = []
+    for i in r8_path_fidelity(ctx):
+        i.rule = "C13.R5"
+        i.key = "path-fidelity:" + i.key
+        out.append(i)
+    out.extend(r6_resolve_parent(ctx, "C13.R5"))
+    return out
+
+
 RULES = [
     ("C13.R1", r1_dot_dotdot, 1, False),
     ("C13.R2", r2_no_follow_descent, 5, False),
     ("C13.R3", r3_enoent_discipline, 4, False),
     ("C13.R4", r4_scan_skips_dots, 1, False),
+    ("C13.R5", r5_named_subtree, 10, False),
 ]
